@@ -5,7 +5,8 @@
    (format, packet bytes / code points of the line, clock input, what the real run asked datetime.strptime and
    whether it accepted), and per call what the real decoder did: returned None / raised (class) / returned a
    message (PGN, id, source, destination, identity of the source, serialisation of ALL fields, priority).
-   The kernel decides `e2e_step ... = observed` call after call, threading the model's own state.
+   The kernel decides `e2e_step ... = observed` call after call, threading the model's own state, and finally compares
+   the model's state with the real decoder's source map and reassembly dictionary.
    A call on which the model stops (`Unmodelled`) ends the comparison of its history (counted by `x_unmodelled`). *)
 From NV Require Import Base Bits Defn PyNum Fields Dispatch Header PyText Wire DecoderCtl CorrDecoderCtl EndToEnd.
 From NVGen Require Import GenCode GenDisp GenLookups.
@@ -18,7 +19,9 @@ Record ecase := E {
   x_ex : list pitem; x_inc : list pitem; x_exm : list DecoderCtl.str; x_incm : list DecoderCtl.str; x_nm : bool;
   x_ctor : option err;           (* None: the constructor returned; Some e: it raised *)
   x_hist : list xcall;
-  x_obs : list xobs
+  x_obs : list xobs;
+  x_map : list (Z * iso);        (* the real decoder's source_to_iso_name after the history *)
+  x_reasm : list (key * rec)     (* the real decoder's reassembly dictionary after the history *)
 }.
 
 (* datetime.strptime answers from the record of the real call and refuses any other question *)
@@ -42,20 +45,34 @@ Definition xres_eqb (r : result (option (msg * Z))) (o : xobs) : bool :=
   end.
 Definition is_unm {A} (r : result A) : bool := match r with Unmodelled => true | _ => false end.
 
-Fixpoint xreplay (c : cfg) (st : state) (h : list xcall) (os : list xobs) : bool :=
+(* None: disagreement; Some None: the model stopped (the rest of the history is not compared); Some (Some st): agreement
+   on every call, st = the model's final state *)
+Fixpoint xreplay (c : cfg) (st : state) (h : list xcall) (os : list xobs) : option (option state) :=
   match h, os with
-  | [], [] => true
+  | [], [] => Some (Some st)
   | x :: h', o :: os' =>
       let sr := the_step c st x in
-      if is_unm (snd sr) then true
-      else xres_eqb (snd sr) o && xreplay c (fst sr) h' os'
-  | _, _ => false
+      if is_unm (snd sr) then Some None
+      else if xres_eqb (snd sr) o then xreplay c (fst sr) h' os' else None
+  | _, _ => None
   end.
+
+(* the model's final state against the real decoder's two dictionaries *)
+Definition chk_final (k : ecase) (st : state) : bool :=
+  forallb (fun se => option_eqb iso_eqb (zlookup (fst se) (srcmap st)) (Some (snd se))) (x_map k) &&
+  (length (srcmap st) =? length (x_map k))%nat &&
+  forallb (fun kr => option_eqb rec_eqb (klookup (fst kr) (reasm st)) (Some (snd kr))) (x_reasm k) &&
+  (length (reasm st) =? length (x_reasm k))%nat.
 
 Definition chk_e2e (k : ecase) : bool :=
   match mk_cfg (x_ex k) (x_inc k) (x_exm k) (x_incm k) (x_nm k), x_ctor k with
   | Err e, Some e' => err_eqb e e'
-  | Ok c, None => xreplay c init (x_hist k) (x_obs k)
+  | Ok c, None =>
+      match xreplay c init (x_hist k) (x_obs k) with
+      | Some (Some st) => chk_final k st
+      | Some None => true
+      | None => false
+      end
   | Unmodelled, _ => true
   | _, _ => false
   end.
